@@ -49,11 +49,20 @@ def generate(tier, rng):
     return c
 
 
+def solo_stage(res, c):
+    """each of the four derives ALONE on (a third of) the definitions: compile only"""
+    from . import c19
+    solos = c19.solo_clones(c.especs[::3], only=('EnumIter', 'EnumCount', 'VariantNames', 'VariantArray'))
+    c19.build_config(res, 'solo-derive', solos, runner.Workspace('c08solo', target_key='std'), lambda e, k: c19.SoloDefs(e), '#![allow(warnings)]')
+    res.cov['solo_derive_definitions'] = len(solos)
+
+
 def run(tier, seed, rng):
     res = Result('C08', tier, seed)
     proof_stage(res, 'C08')
     c = generate(tier, rng)
     out = correspond(res, c, runner.Workspace('c08'), label='modeB')
+    solo_stage(res, c)
     bad = 0
     imp = out['impl']
     for k in range(0, len(c.ops), 4):
